@@ -649,7 +649,7 @@ SETUPS_MORE = [
     ("povmt", "qutrit", 4, ["random", 22, 10], None),
     ("qpt", "qubit", 0, ["random", 33, 5], ["random", 34, 1, 4]),
     ("qmpt", "qubit", 2, ["random", 41, 4], ["random", 42, 2, 3]),
-    ("qmpt", "qubit", 3, ["random", 46, 4], ["random", 47, 2, 2]),
+    ("qmpt", "qubit", 3, ["random", 46, 4], ["random", 47, 3, 2]),
 ]
 HEAVY = {"qmpt": 4, "qpt": 2}      # relative cost: fewer cases
 
